@@ -669,6 +669,9 @@ def replay(ctx, report, path):
     with open(path, encoding="utf-8") as f:
         data = json.load(f)
     case = data.get("input", data)
+    if "label" not in case and data.get("correspondence_disagreements"):
+        # replay of a broken correspondence: the first disagreeing case of the composed stream
+        case = data["correspondence_disagreements"][0]["case"]
     gs = int(re.search(r"gen_seed=(\d+)", case["label"]).group(1))
     if ",composed" in case["label"]:
         ok = composed_vs_run(ctx, report, gs, case["label"], cbca=case["label"].endswith("_cbca"))
